@@ -1,7 +1,14 @@
 """C03 — the frequency grid obeys the DFT and stepping constraints."""
 from __future__ import annotations
 
-from typing import List
+import bisect as _bisect
+import json as _json
+import os as _os
+import subprocess as _subprocess
+import sys as _sys
+from typing import Any, Dict, List
+
+import numpy as np
 
 from .. import common as C
 from . import _sched as S
@@ -33,7 +40,10 @@ CONTRACTS = ["np.logspace/np.searchsorted as modelled (10**linspace; count of gr
 ]
 ASSUMPTIONS = ["float evaluation: r*L=fs and f[j+1]=f[j]+r[j] are checked to a few ulp on the real code; exact in the real-number theorems"]
 RULE = S.__doc__ and ("admissible configurations × 4 schedulers; every bin checked for r*L=fs, stepping, f0, monotone, below Nyquist, bin number, bmin slack; "
-                      "distinct by (scheduler, configuration)")
+                      "distinct by (scheduler, configuration); call HISTORIES (the same request again after a band-limited / forced-count / computed analysis of it, "
+                      "after a caller altered what it was handed, after 0..40 other requests; directly in several keyword orders and through the analyzer by name "
+                      "and by callable): every plan of every step satisfies the predicates, equals the plan of a fresh interpreter bit for bit, shares no memory "
+                      "with an earlier one; distinct by (scheduler, disturbance, gap, configuration)")
 
 
 def correspondence(ctx) -> C.Part:
@@ -63,6 +73,525 @@ def check_cfg(P: C.Part, cfg, scheds=S.SCHEDS) -> None:
             pass
 
 
+# ------------------------------------------------------------------------------------------ call histories
+# A plan is a function of its arguments: "in every plan ..." is quantified over configurations, not over what the process did before.
+# The block below runs HISTORIES on the real code -- the same request made again after the analyzer post-processed a plan of the same
+# arguments (band filter, forced target count, compute()), after a caller overwrote / truncated / deleted / cleared what it was handed,
+# and after 0, 1, 2, 9, 40 requests with other arguments (one-parameter neighbours of the configuration among them) -- and demands of
+# EVERY plan returned at EVERY step: (i) all C03 predicates, (ii) equality, every key, bit for bit, with the plan of the same request
+# evaluated in a FRESH interpreter (`_h_references`), (iii) no writable memory shared with a plan returned by an earlier call,
+# and (iv) plans handed out earlier in the round are unchanged at its end.  Equality is exact because both sides are the same code on
+# the same arguments (HARNESS.md: "same code path"); nothing here depends on a tolerance.
+
+H_KEYS = ["N", "fs", "olap", "bmin", "Lmin", "Jdes", "Kdes"]
+H_EXTRA = {"num_patch_pts": 50, "zzz_unknown": 3.5}          # keywords a scheduler does not use (the analyzer passes the first to new_ltf_plan)
+
+
+def _h_order_analyzer(sched: str) -> List[str]:
+    """the keywords SpectrumAnalyzer.plan() passes, in its order (a memo keyed on the call's keywords sees exactly this)"""
+    return ["N", "fs", "olap", "bmin", "Lmin", "Kdes"] + (["num_patch_pts"] if sched == "new_ltf" else []) + ["Jdes"]
+
+
+H_ABUSES = ["zero-f", "scale-r", "ones-K", "trunc-L", "del-m", "set-nf", "D-inplace", "D-pop", "clear", "band-like"]
+H_GAPS = (0, 1, 2, 9, 40)
+H_MARK = "@@C03-HISTORY-REFERENCE@@"
+_FLOAT_KEYS = ("f", "r", "b", "m", "O")
+_INT_KEYS = ("L", "K", "navg")
+
+
+def _h_cfg(rng: np.random.Generator) -> Dict[str, Any]:
+    """a small admissible configuration (plans of some ten to a hundred bins; evaluated in about a millisecond)"""
+    N = int(rng.choice([int(rng.integers(64, 400)), int(rng.integers(400, 1600)), 128, 1000, 1013]))
+    fs = float(rng.choice([1.0, 2.0, 0.37, 1000.0, float(rng.uniform(0.01, 5000.0))]))
+    olap = float(rng.choice([0.0, 0.5, 0.75, 0.9, float(rng.uniform(0, 0.95))]))
+    bmin = float(rng.choice([1.0, 1.5, 2.0, 3.7, float(rng.uniform(1.0, 6.0))]))
+    Lmin = int(rng.choice([1, 1, 2, max(1, N // 20)]))
+    Jdes = int(rng.choice([10, 20, 50, int(rng.integers(8, 90))]))
+    Kdes = int(rng.choice([1, 2, 5, 10, 30]))
+    return {"N": N, "fs": fs, "olap": olap, "bmin": bmin, "Lmin": Lmin, "Jdes": Jdes, "Kdes": Kdes}
+
+
+def _h_neighbours(rng: np.random.Generator, cfg: Dict[str, Any]) -> List[Dict[str, Any]]:
+    """the configuration with ONE parameter changed, slightly or clearly (a memo whose key drops, rounds or truncates a parameter
+    returns the neighbour's plan)"""
+    small = bool(rng.random() < 0.5)
+    out = [dict(cfg, N=cfg["N"] + (1 if small else int(rng.integers(2, 40)))),
+           dict(cfg, fs=cfg["fs"] * (1 + 1e-6 if small else 2.0)),
+           dict(cfg, olap=min(0.97, cfg["olap"] + (1e-3 if small else 0.04))),
+           dict(cfg, bmin=cfg["bmin"] + (0.01 if small else 0.5)),
+           dict(cfg, Lmin=cfg["Lmin"] + (1 if small else 5)),
+           dict(cfg, Jdes=cfg["Jdes"] + (1 if small else 7)),
+           dict(cfg, Kdes=cfg["Kdes"] + (1 if small else 4))]
+    return [c for c in out if c["bmin"] < c["N"] / 2 and c["Lmin"] <= c["N"]]
+
+
+def _h_step(sched: str, cfg: Dict[str, Any], entry: str = "direct", order=None, opts=None, compute: bool = False, abuse=None) -> Dict[str, Any]:
+    return {"sched": sched, "cfg": cfg, "entry": entry, "order": list(order or H_KEYS), "opts": dict(opts or {}), "compute": bool(compute), "abuse": abuse}
+
+
+def _h_refkey(step: Dict[str, Any]) -> str:
+    """what a step REQUESTS (scheduler, arguments, analyzer options) -- not how (keyword order, name/callable, compute, what the caller does next)"""
+    var = "direct" if step["entry"] == "direct" else "an" + _json.dumps(step["opts"], sort_keys=True)
+    return _json.dumps([step["sched"], [step["cfg"][k] for k in H_KEYS], var])
+
+
+def _h_canon(p) -> Dict[str, Any]:
+    """every key of a returned dictionary, exactly: floats as their bytes, integers as integers"""
+    if not isinstance(p, dict):
+        return {"!type": type(p).__name__}
+    out: Dict[str, Any] = {}
+    for k in sorted(p.keys(), key=str):
+        v = p[k]
+        try:
+            if k == "D":
+                out[k] = [[int(d) for d in dd] for dd in v]
+            elif k == "nf":
+                out[k] = int(v)
+            elif k in _INT_KEYS:
+                a = np.asarray(v)
+                out[k] = [int(x) for x in a] if (a.ndim == 1 and a.dtype.kind in "iu") else ["!" + str(a.dtype) + str(a.shape), a.tolist()]
+            else:
+                a = np.asarray(v, dtype=np.float64)
+                out[str(k)] = [list(a.shape), a.tobytes().hex()]
+        except Exception as ex:  # noqa
+            out[str(k)] = "!unreadable " + type(ex).__name__
+    return out
+
+
+def _h_diff(got: Dict[str, Any], ref: Dict[str, Any], pristine: str = "pristine") -> str:
+    """one line saying where two outcomes differ ('' if equal)"""
+    if got == ref:
+        return ""
+    return _h_diff_text(got, ref).replace("pristine", pristine)
+
+
+def _h_diff_text(got: Dict[str, Any], ref: Dict[str, Any]) -> str:
+    if ("raises" in got) != ("raises" in ref) or got.get("raises") != ref.get("raises"):
+        return f"outcome {('raises ' + got['raises']) if 'raises' in got else 'a plan'}, pristine {('raises ' + ref['raises']) if 'raises' in ref else 'a plan'}"
+    if got.get("Jdes") != ref.get("Jdes"):
+        return f"solved Jdes {got.get('Jdes')}, pristine {ref.get('Jdes')}"
+    a, b = got.get("plan", {}), ref.get("plan", {})
+    if sorted(a) != sorted(b):
+        return f"keys {sorted(a)}, pristine {sorted(b)}"
+    for k in ("nf", "f", "r", "b", "m", "L", "K", "navg", "O", "D") + tuple(sorted(a)):
+        if k in a and a[k] != b[k]:
+            if k in _FLOAT_KEYS and isinstance(a[k], list) and isinstance(b[k], list):
+                x = np.frombuffer(bytes.fromhex(a[k][1]), dtype=np.float64)
+                y = np.frombuffer(bytes.fromhex(b[k][1]), dtype=np.float64)
+                if len(x) != len(y) or a[k][0] != b[k][0]:
+                    return f"key {k!r}: shape {a[k][0]}, pristine {b[k][0]}" + (f" ({k}[0]={float(x[0])!r}, pristine {float(y[0])!r})" if len(x) and len(y) else "")
+                j = int(np.argmax(x.view(np.int64) != y.view(np.int64)))
+                return f"key {k!r}: element {j} is {float(x[j])!r}, pristine {float(y[j])!r}"
+            if isinstance(a[k], list) and isinstance(b[k], list) and len(a[k]) != len(b[k]):
+                return f"key {k!r}: length {len(a[k])}, pristine {len(b[k])}"
+            if isinstance(a[k], list) and isinstance(b[k], list):
+                j = next(i for i in range(len(a[k])) if a[k][i] != b[k][i])
+                return f"key {k!r}: entry {j} is {str(a[k][j])[:60]}, pristine {str(b[k][j])[:60]}"
+            return f"key {k!r}: {str(a[k])[:60]}, pristine {str(b[k])[:60]}"
+    return "outcomes differ"
+
+
+def _h_run(step: Dict[str, Any]):
+    """make the request of one step on the real code -> (returned dictionary | None, exception | None, the Jdes the plan was made with)"""
+    sched, cfg = step["sched"], step["cfg"]
+    try:
+        if step["entry"] == "direct":
+            full = dict(cfg, **H_EXTRA)
+            return S.sched_fn(sched)(**{k: full[k] for k in step["order"]}), None, cfg["Jdes"]
+        from speckit.analysis import SpectrumAnalyzer
+        o = dict(step["opts"])
+        if "band" in o:
+            o["band"] = tuple(o["band"])
+        an = SpectrumAnalyzer(np.zeros(cfg["N"]), cfg["fs"], olap=cfg["olap"], bmin=cfg["bmin"], Lmin=cfg["Lmin"], Jdes=cfg["Jdes"], Kdes=cfg["Kdes"],
+                              scheduler=(sched if step["entry"] == "analyzer:name" else S.sched_fn(sched)), win="hann", **o)
+        if step["compute"]:
+            an.compute()
+        return an.plan(), None, int(an.config["Jdes"])
+    except BaseException as ex:  # noqa  (ltf_plan leaves through sys.exit)
+        if isinstance(ex, KeyboardInterrupt):
+            raise
+        return None, ex, cfg["Jdes"]
+
+
+def _h_outcome(plan, exc, jdes) -> Dict[str, Any]:
+    return {"raises": type(exc).__name__} if exc is not None else {"plan": _h_canon(plan), "Jdes": int(jdes)}
+
+
+def _h_abuse(p, kind: str) -> None:
+    """what a caller may do with the dictionary it was handed (a read-only / immutable plan simply refuses: nothing to check then)"""
+    try:
+        if kind == "zero-f":
+            p["f"][:] = 0
+        elif kind == "scale-r":
+            p["r"] *= 2.0
+        elif kind == "ones-K":
+            p["K"][:] = 1
+        elif kind == "trunc-L":
+            p["L"] = p["L"][:3]
+        elif kind == "del-m":
+            del p["m"]
+        elif kind == "set-nf":
+            p["nf"] = 0
+        elif kind == "D-inplace":
+            p["D"][0][...] = 7
+        elif kind == "D-pop":
+            p["D"].pop()
+        elif kind == "clear":
+            p.clear()
+        elif kind == "band-like":       # what SpectrumAnalyzer.plan() does for a band: rebind the per-bin entries to a sub-range
+            for k in ("f", "r", "b", "L", "K", "navg", "O", "D"):
+                p[k] = p[k][1:-1]
+            p["nf"] = len(p["f"])
+    except (ValueError, TypeError, KeyError, IndexError, AttributeError):
+        pass
+
+
+def _h_pristine(steps: List[Dict[str, Any]]) -> List[Dict[str, Any]]:
+    """the outcomes of a batch of requests in a copy (fork) of this interpreter: whatever the evaluations leave behind dies with the copy"""
+    r, w = _os.pipe()
+    pid = _os.fork()
+    if pid == 0:
+        code = 1
+        try:
+            _os.close(r)
+            with _os.fdopen(w, "wb") as fh:
+                fh.write(_json.dumps([_h_outcome(*_h_run(st)) for st in steps]).encode())
+            code = 0
+        finally:
+            _os._exit(code)
+    _os.close(w)
+    with _os.fdopen(r, "rb") as fh:
+        data = fh.read()
+    _os.waitpid(pid, 0)
+    return _json.loads(data)
+
+
+def _child_main() -> None:
+    """fresh interpreter that has imported the library and done nothing else: every batch of requests read from stdin is evaluated in
+    its own copy of that state"""
+    req = _json.load(_sys.stdin)
+    import speckit
+    from speckit import schedulers, analysis  # noqa: F401  (loaded before the copies are made)
+    outs = [_h_pristine(b) for b in req["batches"]]
+    _sys.stdout.write("\n" + H_MARK + _json.dumps({"speckit": _os.path.dirname(speckit.__file__), "outcomes": outs}) + "\n")
+
+
+def _h_references(steps: List[Dict[str, Any]], notes: List[str]) -> Dict[str, Dict[str, Any]]:
+    """the outcome of every distinct request among `steps` in a PRISTINE state, never mutating anything: a fresh interpreter (`_child_main`)
+    evaluates them in batches, each batch in its own copy of the just-imported library.  No two requests of a batch are for the same
+    scheduler function and effective configuration (the direct request, the analyzer's, each band go to different batches; a forced
+    count, which evaluates many Jdes, is a batch of its own), and a batch runs in REVERSE order of first use here -- so a reference is
+    the first evaluation of its arguments in its process, reached by another route than in this one."""
+    seen: Dict[str, Dict[str, Any]] = {}
+    for st in steps:
+        seen.setdefault(_h_refkey(st), dict(st, order=list(H_KEYS), compute=False, abuse=None,
+                                            entry=("direct" if st["entry"] == "direct" else "analyzer:name")))
+    batches: List[List[Any]] = []
+    count: Dict[Any, int] = {}
+    shared_n = 0
+    for k, st in seen.items():
+        if "force_target_nf" in st["opts"]:
+            batches.append([(k, st)])
+            continue
+        fam = ("ltf" if st["sched"] == "lpsd" else st["sched"],) + S.cfg_key(S.eff(st["cfg"], st["sched"]))
+        i = count.get(fam, 0)
+        count[fam] = i + 1
+        while shared_n <= i:
+            batches.insert(shared_n, [])
+            shared_n += 1
+        batches[i].append((k, st))
+    batches = [list(reversed(b)) for b in batches]
+    try:
+        import speckit
+        env = dict(_os.environ, PYTHONPATH=C.VERIF + _os.pathsep + _os.environ.get("PYTHONPATH", ""))
+        r = _subprocess.run([_sys.executable, "-W", "ignore", "-c", "from vk.props.C03 import _child_main; _child_main()"],
+                            input=_json.dumps({"batches": [[s for _, s in b] for b in batches]}), capture_output=True, text=True, cwd=C.VERIF, env=env, timeout=240)
+        ans = _json.loads(r.stdout.split(H_MARK, 1)[1])
+        if ans["speckit"] != _os.path.dirname(speckit.__file__) or [len(o) for o in ans["outcomes"]] != [len(b) for b in batches]:
+            raise RuntimeError(f"fresh interpreter imported {ans['speckit']}")
+        return {k: o for b, ob in zip(batches, ans["outcomes"]) for (k, _), o in zip(b, ob)}
+    except Exception as ex:  # noqa  (infrastructure, not the library: fall back to the first evaluation in this process)
+        notes.append(f"history references: fresh interpreter unavailable ({type(ex).__name__}: {str(ex)[:120]}); the first evaluation of a request in this process is its reference")
+        return {}
+
+
+class _Held:
+    """memory of every array of every plan returned so far (kept alive, so an address is never reused): sorted disjoint byte ranges"""
+
+    def __init__(self):
+        self.lo: List[int] = []
+        self.items: List[Any] = []          # (lo, hi, array, label)
+        self.dicts: Dict[int, Any] = {}     # id -> (dict, label, round): the dictionaries of the current and the previous round (kept alive)
+        self.round = 0
+
+    def new_round(self, ri: int) -> None:
+        self.round = ri
+        for k in [k for k, v in self.dicts.items() if v[2] < ri - 1]:
+            del self.dicts[k]
+
+    @staticmethod
+    def arrays(p):
+        if not isinstance(p, dict):
+            return
+        for k, v in p.items():
+            if isinstance(v, np.ndarray):
+                yield str(k), v
+            elif isinstance(v, (list, tuple)) and len(v) and isinstance(v[0], np.ndarray):
+                yield f"{k}[0]", v[0]
+                if len(v) > 1 and isinstance(v[-1], np.ndarray):
+                    yield f"{k}[-1]", v[-1]
+
+    @staticmethod
+    def span(a: np.ndarray):
+        if a.size == 0:
+            return None
+        lo = hi = a.__array_interface__["data"][0]
+        for n, s in zip(a.shape, a.strides):
+            if s > 0:
+                hi += (n - 1) * s
+            else:
+                lo += (n - 1) * s
+        return lo, hi + a.itemsize
+
+    def shared(self, p):
+        """(key, label of the earlier call) of the first entry of p that is -- or shares writable memory with -- one returned earlier"""
+        if id(p) in self.dicts:
+            return "the dictionary itself", self.dicts[id(p)][1]
+        for k, a in self.arrays(p):
+            sp = self.span(a)
+            if sp is None:
+                continue
+            i = _bisect.bisect_right(self.lo, sp[0])
+            for j in (i - 1, i):
+                if 0 <= j < len(self.items):
+                    lo, hi, b, lab = self.items[j]
+                    if lo < sp[1] and sp[0] < hi and np.shares_memory(a, b) and (a.flags.writeable or b.flags.writeable):
+                        return k, lab
+        return None
+
+    def add(self, p, label: str) -> None:
+        if not isinstance(p, dict):
+            return
+        self.dicts[id(p)] = (p, label, self.round)
+        for _, a in self.arrays(p):
+            sp = self.span(a)
+            if sp is None:
+                continue
+            i = _bisect.bisect_right(self.lo, sp[0])
+            if any(0 <= j < len(self.items) and self.items[j][0] < sp[1] and sp[0] < self.items[j][1] for j in (i - 1, i)):
+                continue                    # b/m and K/navg of ONE plan are the same array; ranges stay disjoint
+            self.lo.insert(i, sp[0])
+            self.items.insert(i, (sp[0], sp[1], a, label))
+
+
+def _h_label(step: Dict[str, Any]) -> str:
+    s = step["entry"] if step["entry"] != "direct" else "direct call " + ("(keywords in the analyzer's order)" if step["order"] == _h_order_analyzer(step["sched"])
+                                                                          else "(keywords N..Kdes)" if step["order"] == H_KEYS else f"(keywords {','.join(step['order'])})")
+    if step["opts"]:
+        s += " " + ", ".join(f"{k}={v}" for k, v in step["opts"].items())
+    if step["compute"]:
+        s += " + compute()"
+    if step["abuse"]:
+        s += f" then caller does '{step['abuse']}'"
+    return s
+
+
+def _h_violation(step, sub: str, what: str, rnd, extra) -> C.Violation:
+    return C.Violation(what=f"{step['sched']}: {what}  cfg={step['cfg']}",
+                       signature={"scheduler": step["sched"], "subclaim": "history-" + sub, "disturbance": rnd.get("kind", "")},
+                       replay={"scheduler": step["sched"], "cfg": step["cfg"], "subclaim": "history-" + sub, "history": dict(extra, round=rnd)})
+
+
+def run_round(P: C.Part, rnd: Dict[str, Any], refs: Dict[str, Dict[str, Any]], held: _Held, extra: Dict[str, Any]) -> int:
+    """one history: the steps of `rnd` in order, every returned plan checked; returns the number of violations it added"""
+    before = len(P.violations)
+    mine: List[Any] = []                    # (step, dictionary, outcome when returned) of the untouched plans of this round
+    said = set()
+
+    def report(step, sub, what):
+        if (sub, step["sched"]) not in said and len(P.violations) - before < 6:
+            said.add((sub, step["sched"]))
+            P.violations.append(_h_violation(step, sub, what, rnd, extra))
+
+    for pos, step in enumerate(rnd["steps"]):
+        P.cases += 1
+        P.hit("history:" + step["entry"] + ("+band" if "band" in step["opts"] else "+force" if step["opts"] else "") + ("+compute" if step["compute"] else ""))
+        if step["abuse"]:
+            P.hit("history-abuse:" + step["abuse"])
+        where = f"step {pos} of a history [{rnd['kind']}, then {rnd['gap']} other requests] ({_h_label(step)})"
+        plan, exc, jdes = _h_run(step)
+        out = _h_outcome(plan, exc, jdes)
+        ref = refs.setdefault(_h_refkey(step), out)
+        d = _h_diff(out, ref)
+        if d:
+            report(step, "differs", f"{where}: not the plan of these arguments in a fresh interpreter -- {d}")
+        if exc is not None:
+            if step["entry"] == "direct" and not d:     # raised in the fresh interpreter too: not a history effect, still no plan (as `check_cfg`)
+                report(step, "raises", f"{where}: scheduler raised {exc!r}")
+            continue
+        sh = held.shared(plan)
+        if sh is not None:
+            report(step, "alias", f"{where}: returned {sh[0] if sh[0].startswith('the') else 'entry ' + repr(sh[0])} is (shares writable memory with) "
+                                  f"what an earlier call returned [{sh[1]}] -- two plans, one object: changing either changes the other")
+        held.add(plan, f"{step['sched']} {_h_label(step)}")
+        try:
+            npl = S.norm_plan(plan)
+            vs = S.pred_C03(step["sched"], dict(step["cfg"], Jdes=int(jdes)), npl)
+            if "band" in step["opts"]:      # a band-limited plan is a sub-range of the grid: it does not start at bmin*fs/N, and its "m" is not part of the band filter
+                vs = [v for v in vs if v.signature["subclaim"] not in ("f0", "m-is-b")]
+            for v in vs:
+                report(step, v.signature["subclaim"], f"{where}: " + v.what.split("  cfg=")[0])
+        except Exception as ex:  # noqa
+            report(step, "malformed", f"{where}: returned dictionary is not a plan ({type(ex).__name__}: {ex}; keys {sorted(map(str, plan)) if isinstance(plan, dict) else type(plan).__name__})")
+        if step["abuse"]:
+            _h_abuse(plan, step["abuse"])
+        else:
+            mine.append((step, plan, out, pos))
+    for step, plan, out, pos in mine:       # nobody touched these: they must still be what they were when they were returned
+        P.cases += 1
+        d = _h_diff(_h_outcome(plan, None, out["Jdes"]), out, "when it was returned")
+        if d:
+            report(step, "earlier-plan-changed", f"the plan returned at step {pos} of a history [{rnd['kind']}] ({_h_label(step)}) was changed afterwards by later calls -- {d}")
+    if rnd["sched"] == "lpsd":
+        P.cases += 1
+        try:
+            for v in S.pred_C03_lpsd_is_ltf(rnd["steps"][0]["cfg"]):
+                report(rnd["steps"][0], "lpsd-is-ltf", f"after a history [{rnd['kind']}]: lpsd_plan differs from ltf_plan with bmin=1, Lmin=1")
+        except BaseException:  # noqa
+            pass
+    return len(P.violations) - before
+
+
+def _h_orders(rng: np.random.Generator, sched: str):
+    """keyword orders of a direct call: the documented one, the analyzer's, and a shuffled one with or without unused keywords"""
+    ks = list(H_KEYS) + [k for k in H_EXTRA if rng.random() < 0.4]
+    return [list(H_KEYS), _h_order_analyzer(sched), [ks[int(i)] for i in rng.permutation(len(ks))]]
+
+
+def build_histories(hseed: int, n_targets: int, thorough: bool) -> List[Dict[str, Any]]:
+    """the rounds of one run, a function of (hseed, n_targets, thorough) only.  Round = the request made directly (all keyword orders) ->
+    a DISTURBANCE of the same request -> `gap` requests with other arguments (distinct; mostly the same scheduler; neighbours first) ->
+    the request again through every entry (direct in all keyword orders, analyzer by name, analyzer by callable, another band)."""
+    rng = np.random.default_rng(hseed)
+    targets: List[Dict[str, Any]] = []
+    bands: Dict[Any, Any] = {}
+    forced: Dict[Any, int] = {}
+    tries = 0
+    while len(targets) < n_targets and tries < 200:
+        tries += 1
+        cfg = _h_cfg(rng)
+        ok = True
+        for sched in S.SCHEDS:
+            try:
+                f = np.asarray(S.sched_fn(sched)(**cfg)["f"], dtype=float)
+                n150 = int(S.sched_fn(sched)(**dict(cfg, Jdes=150))["nf"]) if sched != "vectorized_ltf" or thorough else 0
+            except BaseException:  # noqa
+                ok = False
+                break
+            n = len(f)
+            if n < 8:
+                ok = False
+                break
+            a, b = n // 4, n // 2
+            bands[(len(targets), sched)] = ([float((f[a - 1] + f[a]) / 2), float((f[b] + f[b + 1]) / 2)],
+                                            [float((f[b + 1] + f[b + 2]) / 2), float(f[-1] * 1.01)])
+            forced[(len(targets), sched)] = n150
+        if ok:
+            targets.append(cfg)
+    pool: List[Dict[str, Any]] = []
+    neigh: List[List[Dict[str, Any]]] = []
+    for t in targets:
+        neigh.append(_h_neighbours(rng, t))
+        pool += neigh[-1]
+    while len(pool) < 52:
+        pool.append(_h_cfg(rng))
+    kinds = ["band:name", "band:callable", "band+compute", "force", "compute", "analyzer-abuse", "plain"] + ["abuse:" + a for a in H_ABUSES]
+    deck: List[str] = []
+    rounds: List[Dict[str, Any]] = []
+    for ti, cfg in enumerate(targets):
+        for sched in S.SCHEDS:
+            b1, b2 = bands[(ti, sched)]
+            for gi, gap in enumerate(H_GAPS):
+                if gap == 40 and not (thorough or ti == 0):
+                    continue
+                if gap == 1:
+                    kind = ("band:name", "band:callable")[(ti + S.SCHEDS.index(sched)) % 2]
+                else:
+                    while True:
+                        if not deck:
+                            deck = [kinds[int(i)] for i in rng.permutation(len(kinds))]
+                        kind = deck.pop()
+                        if not (kind == "force" and forced[(ti, sched)] < 1):
+                            break
+                orders = _h_orders(rng, sched)
+                steps = [_h_step(sched, cfg, order=o) for o in orders]
+                if kind.startswith("band"):
+                    steps.append(_h_step(sched, cfg, entry=("analyzer:callable" if kind == "band:callable" or rng.random() < 0.3 else "analyzer:name"),
+                                         opts={"band": b1}, compute=(kind == "band+compute")))
+                elif kind == "force":
+                    steps.append(_h_step(sched, dict(cfg, Jdes=forced[(ti, sched)]), entry="analyzer:name", opts={"force_target_nf": True}))
+                elif kind == "compute":
+                    steps.append(_h_step(sched, cfg, entry=("analyzer:name", "analyzer:callable")[int(rng.integers(0, 2))], compute=True))
+                elif kind == "analyzer-abuse":
+                    steps.append(_h_step(sched, cfg, entry=("analyzer:name", "analyzer:callable")[int(rng.integers(0, 2))], abuse=H_ABUSES[int(rng.integers(0, len(H_ABUSES)))]))
+                elif kind.startswith("abuse:"):
+                    steps.append(_h_step(sched, cfg, order=orders[int(rng.integers(0, 3))], abuse=kind[6:]))
+                # the other requests: distinct in what the scheduler sees, none equal to the target's
+                tk = S.cfg_key(S.eff(cfg, sched))
+                seen_k = {tk}
+                between: List[Dict[str, Any]] = []
+                cand = [pool[int(i)] for i in rng.permutation(len(pool))]
+                mine_n = [c for c in cand if c in neigh[ti]]
+                for c in mine_n[:2] + [c for c in cand if c not in mine_n[:2]]:
+                    if len(between) >= gap:
+                        break
+                    s2 = sched if rng.random() < 0.8 else S.SCHEDS[int(rng.integers(0, 4))]
+                    k2 = S.cfg_key(S.eff(c, sched)) if s2 == sched else None
+                    if k2 is not None and k2 in seen_k:
+                        continue
+                    if k2 is not None:
+                        seen_k.add(k2)
+                    u = rng.random()
+                    if u < 0.1:
+                        between.append(_h_step(s2, c, entry=("analyzer:name", "analyzer:callable")[int(rng.integers(0, 2))]))
+                    else:
+                        between.append(_h_step(s2, c, order=_h_orders(rng, s2)[int(rng.integers(0, 3))],
+                                               abuse=(H_ABUSES[int(rng.integers(0, len(H_ABUSES)))] if u < 0.25 else None)))
+                if gap == 40:
+                    rng.shuffle(between)    # neighbours anywhere in a long gap
+                probes = [_h_step(sched, cfg, order=o) for o in orders] + [_h_step(sched, cfg, entry="analyzer:name"), _h_step(sched, cfg, entry="analyzer:callable")]
+                probes = [probes[int(i)] for i in rng.permutation(len(probes))]
+                if rng.random() < 0.5:
+                    probes.append(_h_step(sched, cfg, entry="analyzer:name", opts={"band": b2}))
+                    probes.append(_h_step(sched, cfg, order=orders[1]))
+                rounds.append({"kind": kind, "gap": len(between), "sched": sched, "steps": steps + between + probes})
+    return rounds
+
+
+def check_histories(P: C.Part, hseed: int, n_targets: int, thorough: bool, time_left=None) -> None:
+    import time as _time
+    t0 = _time.time()
+    rounds = build_histories(hseed, n_targets, thorough)
+    refs = _h_references([s for r in rounds for s in r["steps"]], P.notes)
+    t1 = _time.time()
+    held = _Held()
+    extra = {"hseed": hseed, "n_targets": n_targets, "thorough": bool(thorough)}
+    done = 0
+    for ri, rnd in enumerate(rounds):
+        if time_left is not None and time_left() < 15:
+            P.notes.append(f"call histories stopped after {ri} of {len(rounds)} rounds (time budget)")
+            break
+        done += 1
+        held.new_round(ri)
+        P.hit("history-disturbance:" + rnd["kind"])
+        P.hit(f"history-gap:{rnd['gap']}")
+        P.nontrivial.add(("history", rnd["sched"], rnd["kind"], rnd["gap"]) + S.cfg_key(rnd["steps"][0]["cfg"]))
+        if run_round(P, rnd, refs, held, dict(extra, round_index=ri)):
+            break                           # later rounds run in a state already shown to be corrupted
+    P.notes.append(f"call histories: {done} rounds ({sum(len(r['steps']) for r in rounds[:done])} plans), pristine references from a fresh interpreter "
+                   f"{t1 - t0:.1f} s, histories {_time.time() - t1:.1f} s")
+
+
 def oracle(ctx, intensive: bool = False, hints=()) -> C.Part:
     P = C.Part()
     for w in WITNESSES:
@@ -78,11 +607,24 @@ def oracle(ctx, intensive: bool = False, hints=()) -> C.Part:
         check_cfg(P, cfg)
         if i < 4:
             P.sample({"op": "oracle", "cfg": cfg})
+    # call histories (drawn last, so that the streams above are what they were)
+    hseed = int(ctx.rng.integers(0, 2 ** 62))
+    if len(P.violations) < 8 and ctx.time_left() > 40:
+        check_histories(P, hseed, ctx.scale(3, 8) * (2 if intensive else 1), ctx.thorough, ctx.time_left)
     return P
 
 
 def replay(ctx, data) -> C.Part:
     P = C.Part()
     for v in data.get("violations", []):
+        h = v["replay"].get("history")
+        if h:
+            # the stored round by itself (fresh references, fresh process state) ...
+            n0 = len(P.violations)
+            run_round(P, h["round"], _h_references(h["round"]["steps"], P.notes), _Held(), {k: h[k] for k in ("hseed", "n_targets", "thorough")})
+            # ... and, if what it showed needs the rounds before it, the whole sequence it was part of
+            if len(P.violations) == n0:
+                check_histories(P, h["hseed"], h["n_targets"], h["thorough"])
+            continue
         check_cfg(P, v["replay"]["cfg"], scheds=[v["replay"]["scheduler"]] if v["replay"]["subclaim"] != "lpsd-is-ltf" else ["lpsd"])
     return P
